@@ -651,25 +651,29 @@ Qed.
 Section PubKeyHash.
 Variable PK : Type.
 Variables SerC SerU SerH : PK -> list N.
+Variable IsNil : PK -> bool.   (* (phase 5) PublicKey_isnil: a.pubKey.Serialize..() on a nil key is Panic 5 *)
 Variable H160 : list N -> list N.
 Variables TestNet3 RegressionNet SimNet MainNet : Kernels3.chaincfg_Params.
 
 (* specification, for every *AddressPubKey value: the P2PKH address whose prefix is the CashAddressPrefix of
    paramsFromNetID(a.pubKeyHashID) and whose hash is Hash160(a.serialize()) copied into the array; never nil,
    no error *)
-Definition pubkey_to_pkh_spec (a : Kernels3.bchutil_AddressPubKey PK) : Kernels3.bchutil_AddressPubKeyHash :=
-  Kernels3.mk_bchutil_AddressPubKeyHash
-    (copy20 (H160 (Kernels3.AddressPubKey_serialize PK SerC SerU SerH a)))
+Definition pubkey_to_pkh_spec (a : Kernels3.bchutil_AddressPubKey PK) : res (option Kernels3.bchutil_AddressPubKeyHash) :=
+  do ser <- Kernels3.AddressPubKey_serialize PK SerC SerU IsNil SerH a ;;
+  Ok (Some (Kernels3.mk_bchutil_AddressPubKeyHash
+    (copy20 (H160 ser))
     (Kernels3.chaincfg_Params_CashAddressPrefix
-       (params_from_net_id TestNet3 RegressionNet SimNet MainNet (Kernels3.bchutil_AddressPubKey_pubKeyHashID PK a))).
+       (params_from_net_id TestNet3 RegressionNet SimNet MainNet (Kernels3.bchutil_AddressPubKey_pubKeyHashID PK a))))).
 
 Theorem AddressPubKey_AddressPubKeyHash_tie a :
-  Kernels4.AddressPubKey_AddressPubKeyHash PK SerC SerU SerH H160 TestNet3 RegressionNet SimNet MainNet a
-  = Ok (Some (pubkey_to_pkh_spec a)).
+  Kernels4.AddressPubKey_AddressPubKeyHash PK SerC SerU IsNil SerH H160 TestNet3 RegressionNet SimNet MainNet a
+  = pubkey_to_pkh_spec a.
 Proof.
   unfold Kernels4.AddressPubKey_AddressPubKeyHash, pubkey_to_pkh_spec.
   fold (gParamsFromNetID TestNet3 RegressionNet SimNet MainNet). rewrite paramsFromNetID_tie.
-  cbn [Go3.deref rbind Kernels3.bchutil_AddressPubKeyHash_hash]. rewrite copy_at_0. cbn [rbind].
+  cbn [Go3.deref rbind Kernels3.bchutil_AddressPubKeyHash_hash].
+  destruct (Kernels3.AddressPubKey_serialize PK SerC SerU IsNil SerH a) as [ser|e|k]; [|reflexivity|reflexivity].
+  cbn [rbind]. rewrite copy_at_0. cbn [rbind].
   rewrite repeat_length, skipn_repeat. reflexivity.
 Qed.
 
@@ -680,7 +684,7 @@ End PubKeyHash.
 Theorem AddressPubKey_AddressPubKeyHash_model_tie (ripemd160 : list N -> list N) (P : Type) (ec_ser : N -> P -> list N)
     fmt pt id :
   (forall x, length (ripemd160 x) = 20%nat) ->
-  Kernels4.AddressPubKey_AddressPubKeyHash (option P) (serC P ec_ser) (serU P ec_ser) (serH P ec_ser)
+  Kernels4.AddressPubKey_AddressPubKeyHash (option P) (serC P ec_ser) (serU P ec_ser) (pkNil P) (serH P ec_ser)
     (hash160 ripemd160) (params_of testnet3) (params_of regtest) (params_of simnet) (params_of mainnet)
     (g_pubkey fmt pt id)
   = Ok (pkh_of (@PKH P (if (id =? 111) || (id =? 196) then cash_prefix testnet3
@@ -689,7 +693,7 @@ Theorem AddressPubKey_AddressPubKeyHash_model_tie (ripemd160 : list N -> list N)
                   (hash160 ripemd160 (serialize P ec_ser fmt pt)))).
 Proof.
   intros Hlen. rewrite AddressPubKey_AddressPubKeyHash_tie. unfold pubkey_to_pkh_spec.
-  rewrite AddressPubKey_serialize_tie. rewrite copy20_full by apply Hlen.
+  rewrite AddressPubKey_serialize_tie. cbn [rbind]. rewrite copy20_full by apply Hlen.
   cbn [g_pubkey Kernels3.bchutil_AddressPubKey_pubKeyHashID pkh_of g_pkh].
   pose proof (paramsFromNetID_nets_tie id) as Hn. unfold default_paramsFromNetID in Hn.
   rewrite paramsFromNetID_tie in Hn. injection Hn as ->.
